@@ -83,7 +83,7 @@ func runC01(c *Ctx) {
 	n := c.N(250, 5000)
 	flips := c.N(14, 60)
 	for i := 0; i < n; i++ {
-		spec := genPESpec(rng, c.N(120, 600))
+		spec := genPESpec(rng, c.Bound(120, 600))
 		im := spec.build(rng)
 		class := fmt.Sprintf("pe32plus=%v/sections=%d/table=%v", spec.plus, len(spec.sections), len(spec.certs) > 0)
 		ok, pre, info := c.evalPE("synthetic/"+class, im.bytes)
